@@ -100,8 +100,9 @@ def create_hamming_parity_submatrix(mu: int, extended: bool = False, dtype: torc
 
     # For extended Hamming code, add an overall parity check
     if extended:
-        # Add a row of all ones to the parity submatrix
-        parity_extension = torch.ones((k, 1), dtype=dtype, device=device)
+        # The extension bit makes every row of [I_k | P | p] have even weight, i.e.
+        # p_i = 1 + weight(P_i) mod 2 (an all-ones column would leave d = 3)
+        parity_extension = (1 + parity_submatrix.sum(dim=1, keepdim=True)) % 2
         parity_submatrix = torch.cat([parity_submatrix, parity_extension], dim=1)
 
     return parity_submatrix
